@@ -823,7 +823,8 @@ func (g *gen) configStream(maxN int) {
 
 func (g *gen) initCase(colon bool, ep, be []tok, stream string) {
 	ept, bet := renderEp(ep), render(be)
-	acc, kind, _ := initOne(colon, ept, bet)
+	acc, kind, e := initOne(colon, ept, bet)
+	defer g.routeText(colon, ep, ept, acc, e, stream)
 	term := emit.App("CInitT", emit.Bool(colon), toksCoq(ep), toksCoq(be), emit.Str(ept), emit.Str(bet), emit.Bool(acc))
 	js := map[string]interface{}{"kind": "init", "stream": stream, "colon_mode": colon, "endpoint": ept, "url_pattern": bet,
 		"observed": map[string]interface{}{"accepted": acc, "error": kind}}
@@ -832,9 +833,27 @@ func (g *gen) initCase(colon bool, ep, be []tok, stream string) {
 	g.w.Add(term, js, "", fmt.Sprintf("I|%v|%s|%s", colon, ept, bet), !acc)
 }
 
+// routeText: for an accepted endpoint, the route pattern Init left in EndpointConfig.Endpoint
+// (what the router adapter registers); segs == nil: raw text case
+func (g *gen) routeText(colon bool, segs []tok, ept string, acc bool, e *config.EndpointConfig, stream string) {
+	if !acc || e == nil {
+		return
+	}
+	var term string
+	if segs == nil {
+		term = emit.App("CRouteTextRaw", emit.Bool(colon), emit.Str(ept), emit.Str(e.Endpoint))
+	} else {
+		term = emit.App("CRouteText", emit.Bool(colon), toksCoq(segs), emit.Str(ept), emit.Str(e.Endpoint))
+	}
+	js := map[string]interface{}{"kind": "route_text", "stream": stream, "colon_mode": colon, "endpoint": ept, "observed": map[string]interface{}{"route": e.Endpoint}}
+	g.w.Count("route_text:" + stream)
+	g.w.Add(term, js, "", fmt.Sprintf("RT|%v|%s", colon, ept), colon && strings.Contains(ept, "{"))
+}
+
 func (g *gen) initCaseS(colon, sequential bool, ep, be []tok, stream string) {
 	ept, bet := renderEp(ep), render(be)
-	acc, kind, _ := initOneSeq(colon, sequential, ept, bet)
+	acc, kind, e := initOneSeq(colon, sequential, ept, bet)
+	defer g.routeText(colon, ep, ept, acc, e, stream)
 	term := emit.App("CInitS", emit.Bool(colon), emit.Bool(sequential), toksCoq(ep), toksCoq(be), emit.Str(ept), emit.Str(bet), emit.Bool(acc))
 	js := map[string]interface{}{"kind": "init", "stream": stream, "colon_mode": colon, "sequential": sequential, "endpoint": ept, "url_pattern": bet,
 		"observed": map[string]interface{}{"accepted": acc, "error": kind}}
@@ -844,7 +863,8 @@ func (g *gen) initCaseS(colon, sequential bool, ep, be []tok, stream string) {
 }
 
 func (g *gen) initRaw(colon bool, ept, bet string, stream string) {
-	acc, kind, _ := initOne(colon, ept, bet)
+	acc, kind, e := initOne(colon, ept, bet)
+	defer g.routeText(colon, nil, ept, acc, e, stream)
 	term := emit.App("CInit", emit.Bool(colon), emit.Str(ept), emit.Str(bet), emit.Bool(acc))
 	js := map[string]interface{}{"kind": "init_raw", "stream": stream, "colon_mode": colon, "endpoint": ept, "url_pattern": bet,
 		"observed": map[string]interface{}{"accepted": acc, "error": kind}}
